@@ -47,6 +47,12 @@ def gen_template(rng, variant=1, containers=("main",)):
         terms = rng.choice([[], [{}], [{"matchExpressions": [{"key": "zone", "operator": "In", "values": []}]}],
                             [{"matchExpressions": [{"key": "zone", "operator": "DoesNotExist"}]}],
                             [{"matchFields": [{"key": "metadata.name", "operator": "NotIn", "values": ["n0"]}]}]])
+    elif r < 0.33:
+        # a template that excludes (or names) nodes by metadata.name: the pin to the pod's own node replaces such a requirement
+        terms = [{"matchFields": [{"key": "metadata.name", "operator": rng.choice(["NotIn", "NotIn", "In"]),
+                                   "values": [rng.choice(["n0", "n1", "n9"])]}]}]
+        if rng.random() < 0.4:
+            terms[0]["matchExpressions"] = [{"key": "zone", "operator": "Exists"}]
     res = {}
     if rng.random() < 0.3:
         res = {containers[0]: {"limits": {"cpu": "500m"}, "requests": {"memory": "64Mi"}}}
